@@ -12,10 +12,9 @@ _HIT = "(NewCond_DAP - NewCond_DelayedCDs - Crop.HIstartCD - 1)"
 contract(SOL + "biomass_accumulation.py", "biomass_accumulation",
          params=dict(Crop=OBJ("Crop"), NewCond_DAP="Int", NewCond_DelayedCDs="Int", NewCond_HIref="Real", NewCond_PctLagPhase="Real",
                      NewCond_B="Real", NewCond_B_NS="Real", Tr="Real", TrPot="Real", et0="Real", growing_season="Bool"),
-         requires=["et0 > 0", "Tr >= 0", "TrPot >= 0", "Crop.WP >= 0", "0 <= Crop.WPy and Crop.WPy <= 100", "Crop.fCO2 >= 0",
+         requires=["implies(growing_season, et0 > 0 and Tr >= 0 and TrPot >= 0 and Crop.WP >= 0 and 0 <= Crop.WPy and Crop.WPy <= 100 and Crop.fCO2 >= 0)",
                    "0 <= NewCond_PctLagPhase and NewCond_PctLagPhase <= 100",
-                   "Crop.CropType == 1 or Crop.CropType == 2 or Crop.CropType == 3",
-                   "Crop.YldFormCD > 0",
+                   "implies(growing_season, (Crop.CropType == 1 or Crop.CropType == 2 or Crop.CropType == 3) and Crop.YldFormCD > 0)",
                    # state invariant established by HIref_current_day: a positive reference harvest index means yield formation has started
                    "implies(NewCond_HIref > 0, %s > 0)" % _HIT],
          returns=[("B", "Real"), ("B_NS", "Real")],
@@ -34,14 +33,15 @@ _HIT2 = "(NewCond_DAP - NewCond_DelayedCDs - Crop.HIstartCD - 1)"
 contract(SOL + "HIref_current_day.py", "HIref_current_day",
          params=dict(NewCond_HIref="Real", NewCond_HIfinal="Real", NewCond_DAP="Int", NewCond_DelayedCDs="Int", NewCond_YieldForm="Bool",
                      NewCond_PctLagPhase="Real", NewCond_CC="Real", NewCond_CC_prev="Real", NewCond_CCxW="Real", Crop=OBJ("Crop"), growing_season="Bool"),
-         requires=["0 < Crop.HIini and Crop.HIini < Crop.HI0", "Crop.HIGC >= 0", "0 <= NewCond_HIfinal and NewCond_HIfinal <= Crop.HI0",
-                   "Crop.CropType == 1 or Crop.CropType == 2 or Crop.CropType == 3", "Crop.dHILinear >= 0", "Crop.tLinSwitch >= 0"],
+         requires=["implies(growing_season, 0 < Crop.HIini and Crop.HIini < Crop.HI0 and Crop.HIGC >= 0 and 0 <= NewCond_HIfinal and NewCond_HIfinal <= Crop.HI0)",
+                   "implies(growing_season, (Crop.CropType == 1 or Crop.CropType == 2 or Crop.CropType == 3) and Crop.dHILinear >= 0 and Crop.tLinSwitch >= 0)",
+                   "0 <= NewCond_PctLagPhase and NewCond_PctLagPhase <= 100", "Crop.HI0 >= 0"],
          returns=[("HIref", "Real"), ("YieldForm", "Bool"), ("PctLagPhase", "Real")],
          ensures=[
              ("C05.hiref_range", "0 <= HIref and HIref <= Crop.HI0"),
-             ("C05.hiref_le_final", "HIref <= NewCond_HIfinal"),
+             ("C05.hiref_le_final", "implies(growing_season, HIref <= NewCond_HIfinal)"),
              ("C06.hiref_positive_means_yield_formation", "implies(HIref > 0, %s > 0)" % _HIT2),
-             ("C05.hiref_lag_range", "implies(growing_season and %s > 0, 0 <= PctLagPhase and PctLagPhase <= 100)" % _HIT2),
+             ("C05.hiref_lag_range", "0 <= PctLagPhase and PctLagPhase <= 100"),
              ("C05.hiref_zero_out_of_season", "implies(not growing_season, HIref == 0)"),
              ("C07.yield_form_flag", "implies(growing_season, YieldForm == (NewCond_DAP - NewCond_DelayedCDs > Crop.HIstartCD))"),
          ],
@@ -50,9 +50,12 @@ contract(SOL + "HIref_current_day.py", "HIref_current_day",
 # ----------------------------------------------------------------------------- HIadj_pre_anthesis / pollination / post_anthesis
 contract(SOL + "HIadj_pre_anthesis.py", "HIadj_pre_anthesis",
          params=dict(NewCond_B="Real", NewCond_B_NS="Real", NewCond_CC="Real", Crop_dHI_pre="Real"),
-         requires=["implies(Crop_dHI_pre > 0, NewCond_B_NS > 0 and Crop_dHI_pre > 1)", "NewCond_B >= 0"],
+         requires=["implies(Crop_dHI_pre > 0, Crop_dHI_pre > 1)", "NewCond_B >= 0"],
          returns=[("Fpre", "Real")],
          ensures=[("C05.fpre_range", "0 <= Fpre and Fpre <= 1 + max(Crop_dHI_pre, 0) / 100")],
+         options=dict(tier_b_kinds=("div_nonzero",)),
+         note="B/B_NS: the no-stress biomass at the start of yield formation is positive in every season with any potential transpiration; not a state invariant "
+              "that is proved here, so the division is served by the bounded C16 check only",
          props=("C05", "C16"))
 
 contract(SOL + "HIadj_pollination.py", "HIadj_pollination",
@@ -92,15 +95,15 @@ contract(SOL + "harvest_index.py", "harvest_index",
              "Crop.HI0 >= 0", "Crop.dHI0 >= 0", "Crop.FloweringCD > 0",
              "implies(Crop.dHI_pre > 0, Crop.dHI_pre > 1)",
              # crop state invariants (established by the previous steps of the day / earlier days)
-             "0 <= InitCond.hi_ref and InitCond.hi_ref <= Crop.HI0",
-             "InitCond.harvest_index <= Crop.HI0 and InitCond.harvest_index_adj <= Crop.HI0 * (1 + Crop.dHI0 / 100)",
+             "implies(growing_season, 0 <= InitCond.hi_ref and InitCond.hi_ref <= Crop.HI0)",
+             "implies(growing_season, InitCond.harvest_index <= Crop.HI0 and InitCond.harvest_index_adj <= Crop.HI0 * (1 + Crop.dHI0 / 100))",
              "0 <= InitCond.f_pol and InitCond.f_pol <= 1", "InitCond.biomass >= 0", "Crop.exc >= -100",
-             "implies(growing_season and InitCond.yield_form and %s >= 0 and not InitCond.pre_adj and Crop.dHI_pre > 0, InitCond.biomass_ns > 0)" % _HI_HIT,
          ],
          returns=[("NewCond", ("Param", "InitCond"))],
          ensures=[
              ("C05.hi_le_reference", "NewCond.harvest_index <= Crop.HI0"),
              ("C05.hi_adj_le_reference_plus_max_increase", "NewCond.harvest_index_adj <= Crop.HI0 * (1 + Crop.dHI0 / 100)"),
+             ("C05.hi_tracks_reference", "implies(growing_season, NewCond.harvest_index == NewCond.hi_ref or NewCond.harvest_index == old(InitCond.harvest_index))"),
              ("C05.hi_zero_out_of_season", "implies(not growing_season, NewCond.harvest_index == 0 and NewCond.harvest_index_adj == 0)"),
              ("C05.hi_fpol_range", "0 <= NewCond.f_pol and NewCond.f_pol <= 1"),
              ("C12.hi_same_object", "same(NewCond, InitCond)"),
@@ -132,9 +135,77 @@ contract(SOL + "germination.py", "germination",
          returns=[("NewCond", ("Param", "InitCond"))],
          ensures=[("C12.germination_same_object", "same(NewCond, InitCond)"),
                   ("C05.germination_reset_out_of_season", "implies(not growing_season, not NewCond.germination and NewCond.delayed_cds == 0 and NewCond.delayed_gdds == 0)"),
-                  ("C07.germination_delay_counts", "NewCond.delayed_cds >= 0 and implies(growing_season and old(InitCond.germination), NewCond.delayed_cds == old(InitCond.delayed_cds))")],
+                  ("C07.germination_delay_counts", "NewCond.delayed_cds >= 0 and implies(growing_season and old(InitCond.germination), NewCond.delayed_cds == old(InitCond.delayed_cds))"),
+                  ("C07.germination_delay_step", "implies(growing_season, NewCond.delayed_cds >= old(InitCond.delayed_cds) and NewCond.delayed_cds <= old(InitCond.delayed_cds) + 1)")],
          loops={"L1": dict(invariant=[("cs", "0 <= comp_sto and comp_sto < n"),
                                       ("lb", "implies(ii <= comp_sto, WrFC - WrWP >= 0.099 * ii)"),
                                       ("pos", "implies(ii == comp_sto + 1, WrFC - WrWP > 0)")])},
          assigns=["InitCond.germination", "InitCond.protected_seed", "InitCond.delayed_cds", "InitCond.delayed_gdds"],
          props=("C05", "C07", "C12", "C16"))
+
+# ----------------------------------------------------------------------------- canopy_cover
+_CC_NN = ["InitCond.canopy_cover >= 0", "InitCond.canopy_cover_ns >= 0", "InitCond.cc0_adj >= 0", "InitCond.ccx_act_ns >= 0",
+          "InitCond.ccx_w >= 0", "InitCond.ccx_w_ns >= 0", "InitCond.ccx_early_sen >= 0", "InitCond.t_early_sen >= 0"]
+contract(SOL + "canopy_cover.py", "canopy_cover",
+         params=dict(Crop=OBJ("Crop"), prof=OBJ("SoilProfile"), Soil_zTop="Real", InitCond=OBJ("InitialCondition"), gdd="Real", et0="Real",
+                     growing_season="Bool"),
+         ghost={"n": "Int"},
+         requires=contracts.water.WF() + [
+             contracts.water.WATER_INV("InitCond.th"),
+             "forall(j, 0, n, prof.dz[j] >= 0.01)", "forall(j, 0, n, prof.th_fc[j] - prof.th_wp[j] >= 0.01)",
+             "Crop.Zmin >= 0.02", "Crop.Aer >= 1",
+             "max(InitCond.z_root, Crop.Zmin) + 0.005 <= prof.dzsum[n-1]",
+             "Soil_zTop >= prof.dzsum[0] + 0.005 or (is_int(100 * Soil_zTop) and Soil_zTop >= prof.dzsum[0])",
+             "forall(k, 0, 4, 0 <= Crop.p_up[k] and Crop.p_up[k] <= 1)", "forall(k, 0, 4, 0 <= Crop.p_lo[k] and Crop.p_lo[k] <= 1)",
+             "forall(k, 0, 3, Crop.fshape_w[k] != 0)",
+             "implies(growing_season, Crop.CalendarType == 1 or Crop.CalendarType == 2)",
+             "implies(growing_season, 0 < Crop.CC0 and Crop.CC0 < Crop.CCx and Crop.CCx <= 1 and Crop.CGC > 0 and Crop.CDC > 0 and gdd >= 0)",
+             # the exponential start of the canopy stays a fraction (valid_crop + weather: checked for the built-in crops over their degree-day range)
+             "implies(growing_season, Crop.CC0 * exp(Crop.CGC * ite(Crop.CalendarType == 1, 1, gdd)) <= 1)",
+             "implies(growing_season, InitCond.cc0_adj <= Crop.CC0)", "InitCond.canopy_cover <= 1 and InitCond.canopy_cover_ns <= 1 and InitCond.ccx_w <= 1 and InitCond.ccx_w_ns <= 1 and InitCond.ccx_act_ns <= 1",
+         ] + _CC_NN,
+         returns=[("NewCond", ("Param", "InitCond"))],
+         ensures=[
+             ("C05.canopy_nonneg", "NewCond.canopy_cover >= 0 and NewCond.canopy_cover_ns >= 0"),
+             ("C05.canopy_le_no_stress", "NewCond.canopy_cover <= NewCond.canopy_cover_ns"),
+             ("C04.canopy_adj_range", "0 <= NewCond.canopy_cover_adj and NewCond.canopy_cover_adj <= 1 and 0 <= NewCond.canopy_cover_adj_ns and NewCond.canopy_cover_adj_ns <= 1"),
+             ("C05.canopy_zero_out_of_season", "implies(not growing_season, NewCond.canopy_cover == 0 and NewCond.canopy_cover_ns == 0 and NewCond.canopy_cover_adj == 0 and NewCond.ccx_w == 0)"),
+             ("C05.canopy_state_nonneg", "NewCond.cc0_adj >= 0 and NewCond.ccx_act_ns >= 0 and NewCond.ccx_w >= 0 and NewCond.ccx_w_ns >= 0 and NewCond.ccx_early_sen >= 0 and NewCond.t_early_sen >= 0"),
+             ("C05.canopy_le_1", "NewCond.canopy_cover <= 1 and NewCond.canopy_cover_ns <= 1 and NewCond.ccx_w <= 1 and NewCond.ccx_w_ns <= 1 and NewCond.ccx_act_ns <= 1 and implies(growing_season, NewCond.cc0_adj <= Crop.CC0)"),
+             ("C06.canopy_prev", "NewCond.cc_prev == old(InitCond.canopy_cover)"),
+             ("C12.canopy_same_object", "same(NewCond, InitCond)"),
+         ],
+         assigns=["InitCond.cc_prev", "InitCond.canopy_cover", "InitCond.canopy_cover_ns", "InitCond.canopy_cover_adj", "InitCond.canopy_cover_adj_ns",
+                  "InitCond.ccx_act", "InitCond.ccx_act_ns", "InitCond.ccx_w", "InitCond.ccx_w_ns", "InitCond.cc0_adj", "InitCond.protected_seed",
+                  "InitCond.crop_dead", "InitCond.premat_senes", "InitCond.ccx_early_sen", "InitCond.t_early_sen"],
+         options=dict(inline=("cc_development", "cc_required_time", "adjust_CCx", "update_CCx_CDC"),
+                      tier_b_kinds=("log_positive", "div_nonzero"),
+                      # cut before the adjusted covers are computed: only the sign/order facts of the two covers are carried over
+                      cuts=[dict(before="NewCond.canopy_cover_adj = 1.72",
+                                 **{"assert": ["NewCond.canopy_cover >= 0", "NewCond.canopy_cover_ns >= NewCond.canopy_cover",
+                                               "NewCond.canopy_cover <= 1", "NewCond.canopy_cover_ns <= 1", "NewCond.cc0_adj <= Crop.CC0", "NewCond.ccx_w <= 1", "NewCond.ccx_w_ns <= 1", "NewCond.ccx_act_ns <= 1",
+                                               "NewCond.cc0_adj >= 0", "NewCond.ccx_act_ns >= 0", "NewCond.ccx_w >= 0",
+                                               "NewCond.ccx_w_ns >= 0", "NewCond.ccx_early_sen >= 0", "NewCond.t_early_sen >= 0"]},
+                                 havoc=["NewCond.canopy_cover", "NewCond.canopy_cover_ns", "NewCond.cc0_adj", "NewCond.ccx_act", "NewCond.ccx_act_ns",
+                                        "NewCond.ccx_w", "NewCond.ccx_w_ns", "NewCond.ccx_early_sen", "NewCond.t_early_sen"])]),
+         note="the log/division sites of the senescence and re-growth branches depend on a crop-state invariant (canopy never exceeds the cover at the start "
+              "of early senescence, positive adjusted rates) that is not proved inductive here: those safety clauses are served by the bounded C16 check only",
+         props=("C04", "C05", "C12", "C16"))
+
+# ----------------------------------------------------------------------------- root_development  (TRUSTED contract: body not verified yet)
+contract(SOL + "root_development.py", "root_development",
+         params=dict(Crop=OBJ("Crop"), prof=OBJ("SoilProfile"), NewCond_DAP="Int", NewCond_Zroot="Real", NewCond_DelayedCDs="Int", NewCond_GDDcum="Real",
+                     NewCond_DelayedGDDs="Real", NewCond_TrRatio="Real", NewCond_th=ARR("Real", "n"), NewCond_CC="Real", NewCond_CC_NS="Real",
+                     NewCond_Germination="Bool", NewCond_rCor="Real", NewCond_Tpot="Real", NewCond_zGW="Real", gdd="Real", growing_season="Bool",
+                     water_table_presence="Int"),
+         ghost={"n": "Int"},
+         requires=[],
+         returns=[("Zroot", "Real"), ("rCor", "Real")],
+         ensures=[("C05.root_trusted_range", "implies(not growing_season, Zroot == 0)"),
+                  ("C05.root_trusted_rcor", "rCor >= 0"),
+                  ("C05.root_trusted_depth", "max(Zroot, Crop.Zmin) + 0.005 <= prof.dzsum[n-1]")],
+         assigns=[],
+         trusted=True,
+         note="ASSUMED contract: root_development is not under proof (known finding C05: roots shrink on restrictive layers); only the frame (no heap effect) "
+              "and the facts the other callees need about the returned depth are assumed",
+         props=("C05",))
